@@ -3,6 +3,13 @@ replay files into known_findings.json after they have been triaged by hand."""
 import glob, json, sys
 prop = sys.argv[1]
 what = {
+ "D10": "recurse / call_next inside the iterable of a comprehension is rewritten with an assignment expression, which Python forbids there: registering the method raises SyntaxError (recode.py visit_Call)",
+ "D11": "recurse(x, **kw): the double-starred argument is treated as a keyword named None (key element (None, dict), call passes **tmp) instead of expanding the keywords (recode.py visit_Call L433-443)",
+ "D12": "a body that uses both recurse and the function's own name (or call_next and the name) has only the first symbol rewritten; the other hits the Unusable placeholder / UsageError (recode.py adapt_function L505-508)",
+ "D25": "call_next(*args) takes the non-inlined path, which is only valid for recurse: UsageError 'call_next should be called right away' at build time (recode.py visit_Call L405-406)",
+ "D3": "typeorder between two types that both carry a __type_order__ hook of different design (Union/Intersection/Exactly/dependent) is not mirror-symmetric; whole-function dispatch over such types follows the direction the library happens to compare in (or sort_types hits a cycle)",
+ "D23": "ranks are formed at the type level: a value-dependent method whose condition fails on the actual values still dominates and pushes other methods into lower ranks, so the first rank with a match wins although the matching methods are ambiguous by the documented rule (typemap.py _pull / resolve)",
+ "D32": "the lookup-table path of Literal dispatch hashes the argument: an unhashable argument (list, dict) raises TypeError instead of falling through",
  "D4": "Equals.get_keys returns only the first value of a Literal: on the lookup-table path (4 or more literal methods) the other values of a multi-valued Literal are lost, and exclusivity is inferred from the first values only (dependent.py L261-262, recode.py L211-223)",
  "D6": "overlapping Literal methods (equal values, or 1 == True) run the first match / the last table entry instead of raising the ambiguity (recode.py L211-223)",
  "D4D6": "Literal dispatch: first value only on the table path, first match on overlapping literals (findings D4 and D6 seen through whole functions)",
